@@ -1127,6 +1127,25 @@ def c05(ctx):
         if kind == 'mate' and not o.startswith('MATE '):
             ctx.v.violation('announced-mate-does-not-exist', {'fen': f, 'go': 'go depth 1', 'engine_final': 'mate %d' % val, 'solver_to_2_plies': o,
                             'engine_lines': j.lines[-3:], 'note': 'an evaluation of extreme material is printed as a mate'}, signature=sig('c05x', f))
+    # mates whose key move is an en-passant capture right after a double push that arrived in a move list
+    mlm = ['6bk/3p3p/8/4P3/8/8/1B6/6K1 b - - 0 1 moves d7d5', '7k/3p4/4p3/4P3/8/5pPq/1B3P1P/7K b - - 0 1 moves d7d5',
+           '1k6/8/8/8/4p3/8/3P3P/KB6 w - - 0 1 moves d2d4']
+    for f, depth in [(x, d) for x in mlm for d in (1, 2, 3)]:
+        o = run_oracle(['MMATE\t%s\t%d' % (f, depth)])[0]
+        j = S.run_jobs([S.Job(f, 'go depth %d' % depth)])[0]
+        par = uci.parse_search_output(j.lines or [])
+        its = S.impl_iterations(par)
+        checked += 1
+        if j.died or j.timeout or not its:
+            crash_violation(ctx, {'fen': f, 'job': j}, 'C05')
+            continue
+        kind, val, pv, nodes = its[max(its)]
+        sol = int(o.split()[1]) if o.startswith('MATE ') else None
+        exp = (abs(sol) + 1) // 2 * (1 if sol > 0 else -1) if sol is not None else None
+        if (sol is not None and abs(sol) <= depth and (kind != 'mate' or val != exp)) or (sol is None and kind == 'mate' and abs(val) * 2 - (1 if val > 0 else 0) <= depth):
+            ctx.v.violation('forced-mate-not-reported-exactly' if sol is not None else 'announced-mate-does-not-exist',
+                            {'position': f, 'go': 'go depth %d' % depth, 'solver': o, 'engine_final': '%s %d' % (kind, val), 'engine_lines': j.lines[-3:],
+                             'note': 'the position is given as FEN + move list; the last move is a double pawn push'}, signature=sig('c05m', f, depth))
     # forced mates that need an UNDER-promotion inside the tree (the queen stalemates): `go depth 5` against the mate solver
     under = ['8/8/1P6/8/8/8/5KPk/8 w - - 0 1', '8/8/6P1/8/8/8/kPK5/8 w - - 0 1', '8/5kpK/8/8/8/8/1p6/8 b - - 0 1', '8/Kpk5/8/8/8/8/6p1/8 b - - 0 1']
     uo = run_oracle(['MMATE\t%s\t5' % f for f in under])
